@@ -4,13 +4,23 @@ LEAN_MODULE = "Hw.Props.C04"
 NS = "Hw.Props.C04."
 THEOREMS = [NS + t for t in """C04_ret_is_full_length C04_writes_in_bounds C04_truncated_prefix C04_snprintf_hwloc
 C04_snprintf_list C04_snprintf_taskset C04_asprintf C04_sscanf_hwloc_defined C04_sscanf_list_defined
-C04_sscanf_taskset_defined C04_roundtrip_hwloc C04_roundtrip_taskset C04_roundtrip_list C04_roundtrip_bitmap""".split()]
+C04_sscanf_taskset_defined C04_roundtrip_hwloc C04_roundtrip_taskset C04_roundtrip_list C04_roundtrip_bitmap
+C04_sscanf_reads_in_bounds C04_list_sscanf_reads_in_bounds C04_taskset_sscanf_reads_in_bounds
+C04_sscanf_writes_in_bounds C04_list_sscanf_writes_in_bounds C04_taskset_sscanf_writes_in_bounds
+C04_sscanf_refines C04_list_sscanf_refines C04_taskset_sscanf_refines C04_sscanf_returns C04_cursor_defined
+C04_cursor_roundtrip""".split()]
 CHECK_MODULES = ["Hw.Props.C04"]
 TRUSTED = ["libc strtoul is modelled (Hw.Base.Num.strtoul: whitespace, 0x prefix, octal for base 0, saturation); snprintf is modelled as 'copy min(len,size-1) bytes + NUL, return len' (this build uses snprintf directly: HWLOC_HAVE_CORRECT_SNPRINTF)",
-           "out-of-bounds READS of the parsers are not expressible in the structurally recursive parser models: they are checked on the real code only (exact-size heap copies under ASan)"]
-ASSUMPTIONS = ["numbers in parsed strings carry no sign character; list indexes below 2^21 (outside: reported as 'unsupported' by model and harness alike)",
+           "parser memory safety is proved on the cursor-level models Hw.Bitmap.Cursor (every read through rd, every ulongs[]/ustr[] store logged); "
+           "libc strchr/strncmp/strlen/memcpy/strtoul are modelled incl. the bytes they read (strtoul: white space, sign, 0x, digits, the stopping byte); "
+           "the tie measures the furthest byte the REAL parser reads (string prefixes below a PROT_NONE page) and compares it with the model's read log"]
+ASSUMPTIONS = ["list format: numbers below 2^21 for the SET-level comparison (outside: 'unsupported' by model and harness alike; the cursor-level model "
+               "still walks such strings and its read-safety theorem covers them); sign characters are inside the cursor-level model and the tie, "
+               "outside the structural models of Hw.Bitmap.Scan (refinement theorems are stated on the structural domain)",
                "no allocation failure"]
-MODELLED = ("modelled: hwloc/bitmap.c 252-739 (three printers as chunk lists + the shared cursor machine, three parsers), "
+MODELLED = ("modelled: hwloc/bitmap.c 252-739 (three printers as chunk lists + the shared cursor machine, three parsers: structural models "
+            "Hw.Bitmap.Scan and cursor-level models Hw.Bitmap.Cursor with read/write logs, proved equal on the structural domain; "
+            "hwloc_bitmap_enlarge_by_ulongs sizing), "
             "hwloc_snprintf (= snprintf in this build); not modelled: allocation failure paths")
 
 def run_engines(tier, seed):
